@@ -153,6 +153,40 @@ def oracle(ctx, trig, n_docs, per_rule={}):
     return n
 
 
+def replaced_handler_part(ctx):
+    """Deterministic: plugins that REPLACE a core handler (spoiler: block_quote) on the documents where the replaced handler's special cases live --
+    quote ladders of every depth up to beyond the nesting limit ending in every kind of opener, with both values of the limit -- none of them
+    contains the plugin's trigger character."""
+    import mistune
+    n = 0
+    enders = ["- item", "1. x", "> q", "text", "-", "2. two", "```\ncode\n```", "    code", "# h", "* * *", "- a\n  - b", "+ x\n> y"]
+    marks = [["> "], [">"], ["> ", "- "], ["- ", "> "], ["1. ", "> "]]
+    for limit in (6, 3):
+        for mk in marks:
+            for k in range(1, limit + 3):
+                pre = "".join(mk[i % len(mk)] for i in range(k))
+                for e in enders:
+                    lines = e.split("\n")
+                    doc = pre + lines[0] + "\n" + "".join(" " * len(pre) + l + "\n" if not pre.startswith(">") else pre + l + "\n" for l in lines[1:])
+                    if "!" in doc:
+                        continue
+                    outs = []
+                    for plugins in (None, ["spoiler"]):
+                        md = mistune.create_markdown(plugins=plugins)
+                        md.block.max_nested_level = limit
+                        try:
+                            outs.append(md(doc))
+                        except RecursionError:
+                            outs.append(None)
+                        except Exception as ex:
+                            outs.append(("EXC", type(ex).__name__))
+                    n += 1
+                    if None not in outs and outs[0] != outs[1]:
+                        ctx.fail("plugin-affects-trigger-free:spoiler", "enabling spoiler changes the output of a document without '!' (nesting limit %d): %r" % (limit, doc),
+                                 {"plugin": "spoiler", "base": [], "position": 0, "hard_wrap": False, "escape": True, "doc": doc, "max_nested": limit, "without": outs[0], "with": outs[1]})
+    return n
+
+
 BASELINE = os.path.join(os.path.dirname(os.path.dirname(os.path.abspath(__file__))), "baseline", "c10_triggers.json")
 
 
@@ -229,6 +263,7 @@ def run(ctx):
     n = oracle(ctx, trig, 6000 if ctx.quick() else 80000, per_rule)
     n += sampler_part(ctx, baseline, 30 if ctx.quick() else 400)
     n += api_part(ctx)
+    n += replaced_handler_part(ctx)
     if ctx.broken and not ctx.failures:
         ctx.notes.append("search mode entered")
         n += oracle(ctx, trig, 40000, per_rule)
